@@ -1024,50 +1024,219 @@ func main() {
 	}
 	sort.Strings(unlinked)
 
-	// ---- writes
-	type key struct {
-		pkg, v, fn, kind string
-		once             bool
+	// ---- when can a function run?  (one call graph over the type-checked module)
+	//
+	// guard(F) = set of guards under which F can be entered:
+	//   "init"       a call from the straight-line body of an init function / a package-level initialiser
+	//   "once:<id>"  a call from inside the literal passed to <id>.Do, or `<id>.Do(F)`
+	//   guards of G  a call from the straight-line body of a function G (not from a function literal in G)
+	//   "run"        anything else: F has no caller in the module (entry point, exported API, method reached
+	//                through an interface), F is used as a function VALUE anywhere (it escapes and may be
+	//                called later, e.g. `DecodeFn: mp3Decode` in an init), or it is called from a function
+	//                literal that is not a Once argument (the literal may be stored and run later)
+	// "run" absorbs everything.  Greatest fixed point, so that mutually recursive helpers inherit the guards
+	// of their entries.
+	top := func(fn string) string {
+		for strings.HasSuffix(fn, ".func") {
+			fn = strings.TrimSuffix(fn, ".func")
+		}
+		return fn
 	}
-	locs := map[key][]string{}
-	for _, s := range all {
-		if !linked[s.pkg] {
+	const RUN = "run"
+	type gs map[string]bool
+	callersOf := map[string][]funcRef{}
+	escaped := map[string]bool{}
+	for _, r := range refs {
+		if !linked[r.pkg] {
 			continue
 		}
-		k := key{s.pkg, s.v, s.fn, s.kind, s.once}
-		locs[k] = append(locs[k], s.loc)
+		if r.call {
+			callersOf[r.callee] = append(callersOf[r.callee], r)
+		} else {
+			escaped[r.callee] = true
+		}
 	}
-	keys := make([]key, 0, len(locs))
-	for k := range locs {
-		keys = append(keys, k)
+	state := map[string]gs{} // absent = not yet known
+	// a plain function (no receiver) that nothing in the linked module refers to cannot run in the fq
+	// binary at all ("unref": exported API without a user); a method may still be reached through an interface
+	for _, d := range decls {
+		name := d[strings.LastIndex(d, "/")+1:]
+		isMethod := strings.Contains(name, ").")
+		isEntry := strings.HasSuffix(d, ".main") || strings.HasSuffix(d, ".init")
+		switch {
+		case escaped[d]:
+			state[d] = gs{RUN: true}
+		case len(callersOf[d]) == 0 && !isMethod && !isEntry:
+			state[d] = gs{"unref": true}
+		case len(callersOf[d]) == 0:
+			state[d] = gs{RUN: true}
+		}
 	}
-	sort.Slice(keys, func(i, j int) bool {
-		a, b := keys[i], keys[j]
-		return fmt.Sprint(a.pkg, "\x00", a.v, "\x00", a.fn, "\x00", a.kind, "\x00", a.once) <
-			fmt.Sprint(b.pkg, "\x00", b.v, "\x00", b.fn, "\x00", b.kind, "\x00", b.once)
-	})
+	for changed := true; changed; {
+		changed = false
+		for _, d := range decls {
+			if state[d][RUN] || len(callersOf[d]) == 0 {
+				continue
+			}
+			g := gs{}
+			for _, r := range callersOf[d] {
+				switch {
+				case r.once != "":
+					g["once:"+r.once] = true
+				case r.initCtx:
+					g["init"] = true
+				case strings.HasSuffix(r.fn, ".func"):
+					g[RUN] = true
+				default:
+					for k := range state[r.pkg+"."+r.fn] {
+						g[k] = true
+					}
+				}
+			}
+			if g[RUN] {
+				g = gs{RUN: true}
+			}
+			if len(g) != len(state[d]) {
+				state[d] = g
+				changed = true
+			}
+		}
+	}
+	guardOf := func(pkg, fn, once string) string {
+		if once != "" {
+			return "once:" + once
+		}
+		if strings.HasSuffix(fn, ".func") {
+			return RUN
+		}
+		g := state[pkg+"."+top(fn)]
+		if len(g) == 0 || g[RUN] {
+			return RUN
+		}
+		var ks []string
+		for k := range g {
+			if k != "unref" || len(g) == 1 {
+				ks = append(ks, k)
+			}
+		}
+		sort.Strings(ks)
+		return strings.Join(ks, "+")
+	}
+	// a guarded site is compared without the function it stands in: helper extraction, renaming and
+	// reordering of init-time / Once-time code do not change the fact
+	fnOf := func(guard, fn string) string {
+		if guard == RUN {
+			return fn
+		}
+		return ""
+	}
 
-	// ---- pointer-receiver method calls, per (pkg, var, method)
-	type pkey struct {
-		pkg, v, method string
-		once           bool
-	}
-	plocs := map[pkey][]string{}
-	for _, c := range pcalls {
-		if !linked[c.pkg] {
-			continue
+	w := bufio.NewWriter(os.Stdout)
+	defer w.Flush()
+	sep := func(i, n int) string {
+		if i == n-1 {
+			return ""
 		}
-		k := pkey{c.pkg, c.v, c.method, c.once}
-		plocs[k] = append(plocs[k], c.fn+"@"+c.loc)
+		return ","
 	}
-	pkeys := make([]pkey, 0, len(plocs))
-	for k := range plocs {
-		pkeys = append(pkeys, k)
+	trunc := func(ls []string) string {
+		sort.Strings(ls)
+		if len(ls) > 6 {
+			return strings.Join(ls[:6], " ") + fmt.Sprintf(" … (%d sites)", len(ls))
+		}
+		return strings.Join(ls, " ")
 	}
-	sort.Slice(pkeys, func(i, j int) bool {
-		a, b := pkeys[i], pkeys[j]
-		return fmt.Sprint(a.pkg, "\x00", a.v, "\x00", a.method, "\x00", a.once) < fmt.Sprint(b.pkg, "\x00", b.v, "\x00", b.method, "\x00", b.once)
-	})
+	// generic table writer: rows = tuples of strings, comment per row
+	table := func(rows map[string][]string, fields int) {
+		var ks []string
+		for k := range rows {
+			ks = append(ks, k)
+		}
+		sort.Strings(ks)
+		for i, k := range ks {
+			fs := strings.Split(k, "\x00")
+			var qs []string
+			for _, f := range fs[:fields] {
+				qs = append(qs, q(f))
+			}
+			fmt.Fprintf(w, "  ⟨%s⟩%s  -- %s\n", strings.Join(qs, ", "), sep(i, len(ks)), trunc(rows[k]))
+		}
+	}
+	key := func(fs ...string) string { return strings.Join(fs, "\x00") }
+
+	fmt.Fprintf(w, "/-! GENERATED by /verif/extract/c18globals from the working tree of the repository — do not edit.\n")
+	fmt.Fprintf(w, "    module %s: %d packages (%d linked into the fq binary), %d files, %d function declarations,\n", l.modpath, npk, len(linked), nfiles, nfuncs)
+	fmt.Fprintf(w, "    type-checked from source (default build configuration linux/amd64, no tags, no cgo;\n")
+	fmt.Fprintf(w, "    %d type errors tolerated in dependencies, none in the module).\n", l.depErrs)
+	sort.Strings(skippedFiles)
+	fmt.Fprintf(w, "    Non-test files excluded by build constraints (NOT scanned): %s\n", strings.Join(skippedFiles, " "))
+	fmt.Fprintf(w, "    Line numbers and the functions of guarded sites appear in comments only.\n\n")
+	fmt.Fprintf(w, "    `guard` = when the site can execute, from the call graph of the type-checked module:\n")
+	fmt.Fprintf(w, "      init        only from straight-line init bodies / package-level initialisers (before main)\n")
+	fmt.Fprintf(w, "      once:<id>   only inside the literal passed to <id>.Do or in functions called only from there\n")
+	fmt.Fprintf(w, "      a+b         either\n")
+	fmt.Fprintf(w, "      unref       never: a plain function that nothing in the linked module refers to\n")
+	fmt.Fprintf(w, "      run         at any time (the function is an entry point, escapes as a value, or is called from a\n")
+	fmt.Fprintf(w, "                  function literal that is not a Once argument); only then `fn` names the function -/\n")
+	fmt.Fprintf(w, "namespace FqModel.Gen\n\n")
+
+	// ---- writes
+	rows := map[string][]string{}
+	for _, x := range all {
+		if linked[x.pkg] {
+			g := guardOf(x.pkg, x.fn, x.once)
+			k := key(x.pkg, x.v, fnOf(g, x.fn), x.kind, g)
+			rows[k] = append(rows[k], x.fn+"@"+x.loc)
+		}
+	}
+	fmt.Fprintf(w, "/-- a write to a package-level variable inside a function body other than the straight-line body of `init` -/\n")
+	fmt.Fprintf(w, "structure GlobalWrite where\n  pkg : String\n  var : String\n  fn : String\n  kind : String\n  guard : String\nderiving DecidableEq, Repr\n\n")
+	fmt.Fprintf(w, "def writes : List GlobalWrite := [\n")
+	table(rows, 5)
+	fmt.Fprintf(w, "]\n\n")
+
+	// ---- pointer-receiver method selections
+	rows = map[string][]string{}
+	for _, c := range pcalls {
+		if linked[c.pkg] {
+			g := guardOf(c.pkg, c.fn, c.once)
+			k := key(c.pkg, c.v, c.method, g)
+			rows[k] = append(rows[k], c.fn+"@"+c.loc)
+		}
+	}
+	fmt.Fprintf(w, "/-- `g.M` / `g.f.M` / `g[i].M` (called or taken as a value) on a package-level variable g where M has a pointer receiver -/\n")
+	fmt.Fprintf(w, "structure PtrCall where\n  pkg : String\n  var : String\n  method : String\n  guard : String\nderiving DecidableEq, Repr\n\n")
+	fmt.Fprintf(w, "def ptrCalls : List PtrCall := [\n")
+	table(rows, 4)
+	fmt.Fprintf(w, "]\n\n")
+
+	// ---- interface / value-receiver method selections
+	rows = map[string][]string{}
+	for _, c := range ocalls {
+		if linked[c.pkg] {
+			g := guardOf(c.pkg, c.fn, c.once)
+			k := key(c.pkg, c.v, c.method, c.kind, g)
+			rows[k] = append(rows[k], c.fn+"@"+c.loc)
+		}
+	}
+	fmt.Fprintf(w, "/-- a method selected (called or taken as a value) on an expression rooted in a package-level variable where\n    the method has NO pointer receiver: `iface` = interface method (dynamic dispatch: may mutate what the interface\n    holds), `value` = value-receiver method (may mutate through maps/slices/pointers inside the value) -/\n")
+	fmt.Fprintf(w, "structure OtherCall where\n  pkg : String\n  var : String\n  method : String\n  kind : String\n  guard : String\nderiving DecidableEq, Repr\n\n")
+	fmt.Fprintf(w, "def otherCalls : List OtherCall := [\n")
+	table(rows, 5)
+	fmt.Fprintf(w, "]\n\n")
+
+	// ---- call-initialised package-level variables used in function bodies
+	rows = map[string][]string{}
+	for _, c := range cinits {
+		if linked[c.pkg] && used[c.obj] {
+			rows[key(c.pkg, c.v, c.typ, c.init)] = []string{c.loc}
+		}
+	}
+	fmt.Fprintf(w, "/-- package-level variables of the linked packages whose initialiser is a function call (not a literal or a\n    constant) and that are used inside a function body other than init: possibly stateful objects -/\n")
+	fmt.Fprintf(w, "structure CallInit where\n  pkg : String\n  var : String\n  typ : String\n  init : String\nderiving DecidableEq, Repr\n\n")
+	fmt.Fprintf(w, "def callInitVars : List CallInit := [\n")
+	table(rows, 4)
+	fmt.Fprintf(w, "]\n\n")
 
 	// ---- address-taken: per variable type
 	acount := map[string]int{}
@@ -1091,146 +1260,22 @@ func main() {
 		atyps = append(atyps, t)
 	}
 	sort.Strings(atyps)
-
-	// ---- field writes to the address-taken types (named struct types only)
-	isAddrType := map[string]bool{}
-	for _, t := range atyps {
-		isAddrType[strings.TrimLeft(t, "*")] = true
-	}
-	// further types shared through the registry, named on the command line (lib/props/C18.json)
-	extraTypes := os.Args[2:]
-	for _, t := range extraTypes {
-		isAddrType[t] = true
-	}
-	type tkey struct {
-		typ, field, pkg, fn string
-		once                bool
-	}
-	tlocs := map[tkey][]string{}
-	for _, w := range fwrites {
-		if isAddrType[w.typ] && linked[w.pkg] {
-			k := tkey{w.typ, w.field, w.pkg, w.fn, w.once}
-			tlocs[k] = append(tlocs[k], w.loc)
-		}
-	}
-	tkeys := make([]tkey, 0, len(tlocs))
-	for k := range tlocs {
-		tkeys = append(tkeys, k)
-	}
-	sort.Slice(tkeys, func(i, j int) bool {
-		a, b := tkeys[i], tkeys[j]
-		return fmt.Sprint(a.typ, "\x00", a.field, "\x00", a.pkg, "\x00", a.fn, "\x00", a.once) < fmt.Sprint(b.typ, "\x00", b.field, "\x00", b.pkg, "\x00", b.fn, "\x00", b.once)
-	})
-
-	// ---- who refers to the writer functions (one level of the static call graph)
-	// writer = a declared function that holds a non-Once data write, a pointer-receiver call of a
-	// module-declared method on a global, or a write to a field of an address-taken type
-	top := func(fn string) string {
-		for strings.HasSuffix(fn, ".func") {
-			fn = strings.TrimSuffix(fn, ".func")
-		}
-		return fn
-	}
-	writers := map[string]bool{}
-	for _, k := range keys {
-		if !k.once {
-			writers[k.pkg+"."+top(k.fn)] = true
-		}
-	}
-	for _, c := range pcalls {
-		if linked[c.pkg] && c.modType && !c.once {
-			writers[c.pkg+"."+top(c.fn)] = true
-		}
-	}
-	for _, k := range tkeys {
-		if !k.once {
-			writers[k.pkg+"."+top(k.fn)] = true
-		}
-	}
-	type rkey struct {
-		callee, pkg, fn string
-		initCtx         bool
-	}
-	rlocs := map[rkey][]string{}
-	for _, r := range refs {
-		if writers[r.callee] && linked[r.pkg] {
-			k := rkey{r.callee, r.pkg, "", r.initCtx}
-			if !r.initCtx {
-				k.fn = r.fn
-			}
-			rlocs[k] = append(rlocs[k], r.loc)
-		}
-	}
-	rkeys := make([]rkey, 0, len(rlocs))
-	for k := range rlocs {
-		rkeys = append(rkeys, k)
-	}
-	sort.Slice(rkeys, func(i, j int) bool {
-		a, b := rkeys[i], rkeys[j]
-		return fmt.Sprint(a.callee, "\x00", a.pkg, "\x00", a.fn, "\x00", a.initCtx) < fmt.Sprint(b.callee, "\x00", b.pkg, "\x00", b.fn, "\x00", b.initCtx)
-	})
-	// per callee: number of init-context references, and the list of non-init references
-	type refSum struct {
-		initRefs int
-		others   []string
-	}
-	sums := map[string]*refSum{}
-	var wnames []string
-	for w := range writers {
-		wnames = append(wnames, w)
-		sums[w] = &refSum{}
-	}
-	sort.Strings(wnames)
-	for _, k := range rkeys {
-		if k.initCtx {
-			sums[k.callee].initRefs += len(rlocs[k])
-		} else {
-			sums[k.callee].others = append(sums[k.callee].others, k.pkg+"."+k.fn)
-		}
-	}
-
-	w := bufio.NewWriter(os.Stdout)
-	defer w.Flush()
-	sep := func(i, n int) string {
-		if i == n-1 {
-			return ""
-		}
-		return ","
-	}
-	trunc := func(ls []string) string {
-		if len(ls) > 6 {
-			return strings.Join(ls[:6], " ") + fmt.Sprintf(" … (%d sites)", len(ls))
-		}
-		return strings.Join(ls, " ")
-	}
-	fmt.Fprintf(w, "/-! GENERATED by /verif/extract/c18globals from the working tree of the repository — do not edit.\n")
-	fmt.Fprintf(w, "    module %s: %d packages (%d linked into the fq binary), %d files, %d function declarations,\n", l.modpath, npk, len(linked), nfiles, nfuncs)
-	fmt.Fprintf(w, "    type-checked from source (default build configuration linux/amd64, no tags, no cgo;\n")
-	fmt.Fprintf(w, "    %d type errors tolerated in dependencies, none in the module).\n", l.depErrs)
-	sort.Strings(skippedFiles)
-	fmt.Fprintf(w, "    Non-test files excluded by build constraints (NOT scanned): %s\n", strings.Join(skippedFiles, " "))
-	fmt.Fprintf(w, "    Line numbers appear in comments only. -/\n")
-	fmt.Fprintf(w, "namespace FqModel.Gen\n\n")
-	fmt.Fprintf(w, "/-- a write to a package-level variable inside a function body other than the straight-line body of `init` -/\n")
-	fmt.Fprintf(w, "structure GlobalWrite where\n  pkg : String\n  var : String\n  fn : String\n  kind : String\n  once : Bool\nderiving DecidableEq, Repr\n\n")
-	fmt.Fprintf(w, "def writes : List GlobalWrite := [\n")
-	for i, k := range keys {
-		fmt.Fprintf(w, "  ⟨%s, %s, %s, %s, %v⟩%s  -- %s\n", q(k.pkg), q(k.v), q(k.fn), q(k.kind), k.once, sep(i, len(keys)), trunc(locs[k]))
-	}
-	fmt.Fprintf(w, "]\n\n")
-	fmt.Fprintf(w, "/-- `g.M(…)` / `g.f.M(…)` / `g[i].M(…)` on a package-level variable g where M has a pointer receiver -/\n")
-	fmt.Fprintf(w, "structure PtrCall where\n  pkg : String\n  var : String\n  method : String\n  once : Bool\nderiving DecidableEq, Repr\n\n")
-	fmt.Fprintf(w, "def ptrCalls : List PtrCall := [\n")
-	for i, k := range pkeys {
-		fmt.Fprintf(w, "  ⟨%s, %s, %s, %v⟩%s  -- %s\n", q(k.pkg), q(k.v), q(k.method), k.once, sep(i, len(pkeys)), trunc(plocs[k]))
-	}
-	fmt.Fprintf(w, "]\n\n")
 	fmt.Fprintf(w, "/-- types of the package-level variables whose address is taken outside init (`&g`, `&g.f`, `&g[i]`) -/\n")
 	fmt.Fprintf(w, "def addrTakenTypes : List String := [\n")
 	for i, t := range atyps {
 		fmt.Fprintf(w, "  %s%s  -- %d sites, %d variables, e.g. %s\n", q(t), sep(i, len(atyps)), acount[t], len(avars[t]), strings.Join(aex[t], " "))
 	}
 	fmt.Fprintf(w, "]\n\n")
+
+	// ---- field writes to the address-taken types and the types named on the command line
+	isShared := map[string]bool{}
+	for _, t := range atyps {
+		isShared[strings.TrimLeft(t, "*")] = true
+	}
+	extraTypes := os.Args[2:]
+	for _, t := range extraTypes {
+		isShared[t] = true
+	}
 	fmt.Fprintf(w, "/-- further types shared through the registry (arguments of the extractor) -/\n")
 	fmt.Fprintf(w, "def extraSharedTypes : List String := [")
 	for i, t := range extraTypes {
@@ -1240,111 +1285,58 @@ func main() {
 		fmt.Fprintf(w, "%s", q(t))
 	}
 	fmt.Fprintf(w, "]\n\n")
-	fmt.Fprintf(w, "/-- an assignment (or delete/clear/copy), anywhere in the linked module code outside init, through a field\n    of a value whose (pointer-stripped) named type is one of `addrTakenTypes` or `extraSharedTypes` -/\n")
-	fmt.Fprintf(w, "structure TypeWrite where\n  typ : String\n  field : String\n  pkg : String\n  fn : String\n  once : Bool\nderiving DecidableEq, Repr\n\n")
+	rows = map[string][]string{}
+	for _, x := range fwrites {
+		if isShared[x.typ] && linked[x.pkg] {
+			g := guardOf(x.pkg, x.fn, x.once)
+			pk := x.pkg
+			if g != RUN {
+				pk = ""
+			}
+			k := key(x.typ, x.field, pk, fnOf(g, x.fn), g)
+			rows[k] = append(rows[k], x.pkg+"."+x.fn+"@"+x.loc)
+		}
+	}
+	fmt.Fprintf(w, "/-- an assignment (or delete/clear/copy), anywhere in the linked module code outside init, through a field\n    of a value whose (pointer-stripped) named type is one of `addrTakenTypes` or `extraSharedTypes`;\n    `pkg`/`fn` are filled in only when the guard is `run` -/\n")
+	fmt.Fprintf(w, "structure TypeWrite where\n  typ : String\n  field : String\n  pkg : String\n  fn : String\n  guard : String\nderiving DecidableEq, Repr\n\n")
 	fmt.Fprintf(w, "def typeWrites : List TypeWrite := [\n")
-	for i, k := range tkeys {
-		fmt.Fprintf(w, "  ⟨%s, %s, %s, %s, %v⟩%s  -- %s\n", q(k.typ), q(k.field), q(k.pkg), q(k.fn), k.once, sep(i, len(tkeys)), trunc(tlocs[k]))
-	}
+	table(rows, 5)
 	fmt.Fprintf(w, "]\n\n")
-	fmt.Fprintf(w, "/-- for every writer function (holds a non-Once site of the tables above): the functions that refer to it\n    (call it or take it as a value) from anywhere but the straight-line body of an `init` / a package-level\n    initialiser; `initRefs` (number of references from init context) is informational -/\n")
-	fmt.Fprintf(w, "structure WriterRefs where\n  writer : String\n  nonInitRefs : List String\nderiving DecidableEq, Repr\n\n")
-	fmt.Fprintf(w, "def writerRefs : List WriterRefs := [\n")
-	for i, n := range wnames {
-		var qs []string
-		for _, o := range sums[n].others {
-			qs = append(qs, q(o))
-		}
-		fmt.Fprintf(w, "  ⟨%s, [%s]⟩%s  -- %d references from init context\n", q(n), strings.Join(qs, ", "), sep(i, len(wnames)), sums[n].initRefs)
-	}
-	fmt.Fprintf(w, "]\n\n")
-	// ---- interface / value-receiver method selections on globals
-	{
-		type k struct {
-			pkg, v, method, kind string
-			once                 bool
-		}
-		m := map[k][]string{}
-		for _, c := range ocalls {
-			if linked[c.pkg] {
-				kk := k{c.pkg, c.v, c.method, c.kind, c.once}
-				m[kk] = append(m[kk], c.fn+"@"+c.loc)
-			}
-		}
-		var ks []k
-		for kk := range m {
-			ks = append(ks, kk)
-		}
-		sort.Slice(ks, func(i, j int) bool {
-			return fmt.Sprint(ks[i].pkg, "\x00", ks[i].v, "\x00", ks[i].method, "\x00", ks[i].kind, "\x00", ks[i].once) <
-				fmt.Sprint(ks[j].pkg, "\x00", ks[j].v, "\x00", ks[j].method, "\x00", ks[j].kind, "\x00", ks[j].once)
-		})
-		fmt.Fprintf(w, "/-- a method selected (called or taken as a value) on an expression rooted in a package-level variable where\n    the method has NO pointer receiver: `iface` = interface method (dynamic dispatch: may mutate what the interface\n    holds), `value` = value-receiver method (may mutate through maps/slices/pointers inside the value) -/\n")
-		fmt.Fprintf(w, "structure OtherCall where\n  pkg : String\n  var : String\n  method : String\n  kind : String\n  once : Bool\nderiving DecidableEq, Repr\n\n")
-		fmt.Fprintf(w, "def otherCalls : List OtherCall := [\n")
-		for i, kk := range ks {
-			fmt.Fprintf(w, "  ⟨%s, %s, %s, %s, %v⟩%s  -- %s\n", q(kk.pkg), q(kk.v), q(kk.method), q(kk.kind), kk.once, sep(i, len(ks)), trunc(m[kk]))
-		}
-		fmt.Fprintf(w, "]\n\n")
-	}
-	// ---- call-initialised package-level variables used in function bodies
-	{
-		sort.Slice(cinits, func(i, j int) bool {
-			return cinits[i].pkg+"\x00"+cinits[i].v < cinits[j].pkg+"\x00"+cinits[j].v
-		})
-		var out []callInit
-		for _, c := range cinits {
-			if linked[c.pkg] && used[c.obj] {
-				out = append(out, c)
-			}
-		}
-		fmt.Fprintf(w, "/-- package-level variables of the linked packages whose initialiser is a function call (not a literal or a\n    constant) and that are used inside a function body other than init: possibly stateful objects -/\n")
-		fmt.Fprintf(w, "structure CallInit where\n  pkg : String\n  var : String\n  typ : String\n  init : String\nderiving DecidableEq, Repr\n\n")
-		fmt.Fprintf(w, "def callInitVars : List CallInit := [\n")
-		for i, c := range out {
-			fmt.Fprintf(w, "  ⟨%s, %s, %s, %s⟩%s  -- %s\n", q(c.pkg), q(c.v), q(c.typ), q(c.init), sep(i, len(out)), c.loc)
-		}
-		fmt.Fprintf(w, "]\n\n")
-	}
+
 	// ---- accesses to fields of lock-owning types outside Once literals
-	{
-		type k struct{ typ, field, pkg, fn string }
-		m := map[k][]string{}
-		for _, g := range guses {
-			if linked[g.pkg] {
-				kk := k{g.typ, g.field, g.pkg, g.fn}
-				m[kk] = append(m[kk], g.loc)
+	rows = map[string][]string{}
+	for _, x := range guses {
+		if linked[x.pkg] {
+			g := guardOf(x.pkg, x.fn, "")
+			pk := x.pkg
+			if g != RUN {
+				pk = ""
 			}
+			k := key(x.typ, x.field, pk, fnOf(g, x.fn), g)
+			rows[k] = append(rows[k], x.pkg+"."+x.fn+"@"+x.loc)
 		}
-		var ks []k
-		for kk := range m {
-			ks = append(ks, kk)
-		}
-		sort.Slice(ks, func(i, j int) bool {
-			return fmt.Sprint(ks[i].typ, "\x00", ks[i].field, "\x00", ks[i].pkg, "\x00", ks[i].fn) < fmt.Sprint(ks[j].typ, "\x00", ks[j].field, "\x00", ks[j].pkg, "\x00", ks[j].fn)
-		})
-		var gts []string
-		for t := range l.guarded {
-			gts = append(gts, t)
-		}
-		sort.Strings(gts)
-		fmt.Fprintf(w, "/-- struct types of the module that own a sync.Once / sync.Mutex / sync.RWMutex field -/\n")
-		fmt.Fprintf(w, "def guardedTypes : List String := [")
-		for i, t := range gts {
-			if i > 0 {
-				fmt.Fprintf(w, ", ")
-			}
-			fmt.Fprintf(w, "%s", q(t))
-		}
-		fmt.Fprintf(w, "]\n\n")
-		fmt.Fprintf(w, "/-- every access (read or write) to a field of a `guardedTypes` value outside init bodies and OUTSIDE the\n    literal passed to Once.Do — the accesses that need another justification (lock held, init time, or after Do) -/\n")
-		fmt.Fprintf(w, "structure GuardedUse where\n  typ : String\n  field : String\n  pkg : String\n  fn : String\nderiving DecidableEq, Repr\n\n")
-		fmt.Fprintf(w, "def guardedUses : List GuardedUse := [\n")
-		for i, kk := range ks {
-			fmt.Fprintf(w, "  ⟨%s, %s, %s, %s⟩%s  -- %s\n", q(kk.typ), q(kk.field), q(kk.pkg), q(kk.fn), sep(i, len(ks)), trunc(m[kk]))
-		}
-		fmt.Fprintf(w, "]\n\n")
 	}
+	var gts []string
+	for t := range l.guarded {
+		gts = append(gts, t)
+	}
+	sort.Strings(gts)
+	fmt.Fprintf(w, "/-- struct types of the module that own a sync.Once / sync.Mutex / sync.RWMutex field -/\n")
+	fmt.Fprintf(w, "def guardedTypes : List String := [")
+	for i, t := range gts {
+		if i > 0 {
+			fmt.Fprintf(w, ", ")
+		}
+		fmt.Fprintf(w, "%s", q(t))
+	}
+	fmt.Fprintf(w, "]\n\n")
+	fmt.Fprintf(w, "/-- every access (read or write) to a field of a `guardedTypes` value outside init bodies and lexically OUTSIDE\n    a literal passed to Once.Do; `pkg`/`fn` are filled in only when the guard is `run` — those are the accesses\n    that need another justification (lock held, or after the accessor's own Do) -/\n")
+	fmt.Fprintf(w, "structure GuardedUse where\n  typ : String\n  field : String\n  pkg : String\n  fn : String\n  guard : String\nderiving DecidableEq, Repr\n\n")
+	fmt.Fprintf(w, "def guardedUses : List GuardedUse := [\n")
+	table(rows, 5)
+	fmt.Fprintf(w, "]\n\n")
+
+	sort.Strings(unlinked)
 	fmt.Fprintf(w, "/-- module packages NOT reachable from the root package main (fq.go): tools, generators, test support -/\n")
 	fmt.Fprintf(w, "def unlinkedPackages : List String := [\n")
 	for i, u := range unlinked {
